@@ -348,6 +348,12 @@ def generate():
     fm = re.search(r"async fn forward_response\b(.*?)\n    \}\n", whole, flags=re.S)
     mm = re.search(r"HeaderName::from_static\(constants::AUTHORIZATION_HEADER\)\s*,\s*HeaderValue::from_static\(\"([^\"]*)\"\)", fm.group(1) if fm else "", flags=re.S)
     S("response_marker_value", mm.group(1) if mm else "", f)
+    # does Client::send_request await SendRequest::ready() before send_request? (finding F12, fix commit cdcae0b)
+    # TOLERANT: 0 when the guard is not found, which breaks C14_every_request_relayed and triggers C14's search
+    cm = re.search(r"impl Client \{(.*?)\n\}\n", strip_comments(src("proxy_agent/src/proxy/proxy_connection.rs")), flags=re.S)
+    cbody = cm.group(1) if cm else ""
+    ri, si = cbody.find("self.sender.ready().await"), cbody.find("self.sender.send_request(")
+    I("upstream_waits_ready", 1 if 0 <= ri < si else 0, "proxy_agent/src/proxy/proxy_connection.rs")
 
     # ---- key directory restriction (C12): chown uid/gid and chmod mode of acl_directory ----
     # TOLERANT: 0 / 65535 sentinel when the call is gone, so that the proof breaks and the check goes on
